@@ -417,6 +417,112 @@ pub struct S13 {
 }
 observe_struct!(S13 { fl, pl, pl2, sb, p });
 
+// pairs and triples of field options used together
+#[derive(FromMeta)]
+pub struct S14 {
+    #[darling(multiple, with = pw::<5101>)]
+    mw: Vec<PM<5101>>,
+    #[darling(multiple, map = pmap::<5102>)]
+    mm: Vec<PM<5102>>,
+    #[darling(multiple, and_then = pthen::<5103>)]
+    ma: Vec<PM<5103>>,
+    #[darling(with = pw::<5104>, map = pmap::<5104>)]
+    wm: PM<5104>,
+    #[darling(with = pw::<5105>, default = pdef::<5105>)]
+    wd: PM<5105>,
+    #[darling(and_then = pthen::<5106>, default = pdef::<5106>)]
+    ad: PM<5106>,
+    #[darling(rename = "rn", with = pw::<5107>, default)]
+    rw: PM<5107>,
+    #[darling(multiple, default)]
+    md: Vec<PM<5108>>,
+    #[darling(multiple, rename = "mr", default = pdefv::<5109>, and_then = pthen::<5109>)]
+    mrd: Vec<PM<5109>>,
+    #[darling(with = pwo::<5110>)]
+    wo: Option<PM<5110>>,
+    #[darling(rename = "ro", default, map = pmap::<5111>)]
+    rmap: PM<5111>,
+}
+observe_struct!(S14 { mw, mm, ma, wm, wd, ad, rw, md, mrd, wo, rmap });
+
+fn s15_then(v: S15) -> darling::Result<S15> {
+    cthen::<5210, S15>(v)
+}
+
+// container default + and_then + allow_unknown_fields next to flatten, multiple and skip
+#[derive(FromMeta)]
+#[darling(default, and_then = s15_then, allow_unknown_fields)]
+pub struct S15 {
+    a: PM<5201>,
+    #[darling(multiple)]
+    m: Vec<PM<5202>>,
+    #[darling(flatten)]
+    rest: S1,
+    #[darling(skip)]
+    sk: PM<5203>,
+}
+observe_struct!(S15 { a, m, rest, sk });
+impl Default for S15 {
+    fn default() -> Self {
+        container_default_seam(5200);
+        S15 {
+            a: Default::default(),
+            m: Default::default(),
+            rest: S1 { a: PM(Tok::Default(101)), b: None, c: PM(Tok::Default(103)), d: PM(Tok::Default(104)) },
+            sk: Default::default(),
+        }
+    }
+}
+
+// allow_unknown_fields + flatten without a container default
+#[derive(FromMeta)]
+#[darling(allow_unknown_fields)]
+pub struct S16 {
+    a: PM<5251>,
+    #[darling(flatten)]
+    rest: S1,
+}
+observe_struct!(S16 { a, rest });
+
+#[derive(FromMeta)]
+#[darling(rename_all = "lowercase")]
+pub enum E4 {
+    #[darling(word)]
+    TheDefault,
+    #[darling(rename = "nt")]
+    Newt(Option<PM<5301>>),
+    #[darling(skip)]
+    Gone(PM<5302>),
+    StructV {
+        #[darling(multiple)]
+        m: Vec<PM<5303>>,
+        #[darling(default)]
+        d: PM<5304>,
+        #[darling(with = pw::<5305>)]
+        w: PM<5305>,
+        #[darling(and_then = pthen::<5306>)]
+        t: PM<5306>,
+        #[darling(rename = "rr", default = pdef::<5307>)]
+        r: PM<5307>,
+    },
+}
+impl Observe for E4 {
+    fn observe(&self) -> Val {
+        match self {
+            E4::TheDefault => Val::Variant("thedefault".into(), Box::new(Val::Unit)),
+            E4::Newt(v) => Val::Variant("nt".into(), Box::new(v.observe())),
+            E4::Gone(v) => Val::Variant("gone".into(), Box::new(v.observe())),
+            E4::StructV { m, d, w, t, r } => Val::Variant(
+                "structv".into(),
+                Box::new(Val::Struct(
+                    "structv".into(),
+                    vec![("m".into(), m.observe()), ("d".into(), d.observe()), ("w".into(), w.observe()), ("t".into(), t.observe()), ("r".into(), r.observe())],
+                )),
+            ),
+        }
+    }
+}
+
 // built-in and library conversions (judged for totality only)
 #[derive(FromMeta)]
 pub struct L1 {
@@ -519,7 +625,7 @@ pub fn run_meta_receiver(name: &str, entry: &MetaEntry, meta: &syn::Meta) -> Opt
         name,
         entry,
         meta,
-        [S1, S2, S3, S4, S5, S6, S7, S8, S9, S10, S11, S12, S13, N1, N2, Rec, F1, F2, F3, F4, U1, NT1, NT2, W1, E1, E2, E3, EH, WR, MP, L1, L2, L3, RHS, RBS, RHI, RBI, RHP, RHN, RBN, RHH, RBH, RHB, RBB, RHU, RBU]
+        [S1, S2, S3, S4, S5, S6, S7, S8, S9, S10, S11, S12, S13, S14, S15, S16, E4, N1, N2, Rec, F1, F2, F3, F4, U1, NT1, NT2, W1, E1, E2, E3, EH, WR, MP, L1, L2, L3, RHS, RBS, RHI, RBI, RHP, RHN, RBN, RHH, RBH, RHB, RBB, RHU, RBU]
     )
 }
 
